@@ -242,6 +242,20 @@ func (e *enc) loopEnv(fr *frame, h *ssa.BasicBlock, phiVals map[*ssa.Phi]Term, m
 		}
 	}
 	env.locals = func(name string) (tval, bool) { return e.lookupLocal(fr, h, phiVals, mem, name) }
+	// a parameter that the body re-assigns (and that is not kept in a cell): the clause sees its current value
+	for _, p := range fr.fn.Params {
+		if cv, ok := fr.curNames[p.Name()]; ok && cv != ssa.Value(p) {
+			if obj, known := fr.curObj[p.Name()]; known && obj != p.Object() {
+				continue // another variable of the same name (an inner declaration shadows the parameter here)
+			}
+			if _, isAlloc := cv.(*ssa.Alloc); !isAlloc {
+				if env.curParam == nil {
+					env.curParam = map[string]bool{}
+				}
+				env.curParam[p.Name()] = true
+			}
+		}
+	}
 	// pointer variables bound to a composite literal kept in a local cell (p := &T{...} whose address does not escape)
 	for name, v := range fr.curNames {
 		if a, ok := v.(*ssa.Alloc); ok && a.Comment != name {
@@ -262,6 +276,9 @@ func (e *enc) loopEnv(fr *frame, h *ssa.BasicBlock, phiVals map[*ssa.Phi]Term, m
 					}
 					return fmt.Sprintf("(+ %s 1)", ls.phiPre[ls.rangeIdx]), true
 				}
+				if fmt.Sprint(ls.ord) == name[1:] && ls.countIdx != nil && hh != h {
+					return ls.phiPre[ls.countIdx], true
+				}
 			}
 		}
 		if name != "i" && name != fmt.Sprintf("i%d", fr.loopOrd[h]) {
@@ -279,6 +296,11 @@ func (e *enc) loopEnv(fr *frame, h *ssa.BasicBlock, phiVals map[*ssa.Phi]Term, m
 					}
 					return fmt.Sprintf("(+ %s 1)", t), true
 				}
+			}
+		}
+		if ls := fr.loops[h]; ls != nil && ls.countIdx != nil {
+			if t, ok := phiVals[ls.countIdx]; ok {
+				return t, true
 			}
 		}
 		return "", false
@@ -408,7 +430,7 @@ func verifyFuncMode(w *World, ss *SpecSet, fn *ssa.Function, sweep, finder bool)
 		env := e.fnEnv(fr, e.mem)
 		env.oldMem = nil
 		for i, iv := range invs {
-			g, err := e.specBool(env, iv.E)
+			g, err := e.specBool(stateOnly(env), iv.E)
 			if err != nil {
 				e.contractError(fr, fmt.Sprintf("invariant %d: %v", i+1, err))
 				continue
@@ -513,7 +535,7 @@ func verifyFuncMode(w *World, ss *SpecSet, fn *ssa.Function, sweep, finder bool)
 			e.mem = r.mem
 			envR := e.fnEnv(fr, r.mem)
 			for i, iv := range invs {
-				g, err := e.specBool(envR, iv.E)
+				g, err := e.specBool(stateOnly(envR), iv.E)
 				if err != nil {
 					continue
 				}
